@@ -838,6 +838,8 @@ impl<'a> Rf<'a> {
                     }
                 }
             }
+            let em_item = self.emitted.len();
+            let lg_item = self.log.len();
             let old_hi = std::mem::replace(&mut self.hi, q);
             let ir = self.ev(&r.item, q, env);
             let reached = self.hi;
@@ -865,14 +867,14 @@ impl<'a> Rf<'a> {
                         let keep = if self.opts.vlead_alt { false } else { r.trailing };
                         if keep {
                             // discard only the item's traces
-                            self.abandon("sep-item", self.emitted.len(), self.log.len(), reached > q);
+                            self.abandon("sep-item", em_item, lg_item, reached > q);
                             p = q;
                         } else {
                             self.abandon("sep-item", em, lg, reached > step_start);
                             p = step_start;
                         }
                     } else if had_sep && r.trailing {
-                        self.abandon("sep-item-trailing", self.emitted.len(), self.log.len(), reached > q);
+                        self.abandon("sep-item-trailing", em_item, lg_item, reached > q);
                         p = q;
                     } else {
                         self.abandon(
@@ -1120,4 +1122,13 @@ pub fn fold_state(toks: &[char]) -> (u64, u64) {
         h = fnv_step(h, *c);
     }
     (toks.len() as u64, h)
+}
+
+impl Emis {
+    pub fn kind_name(&self) -> String {
+        match &self.kind {
+            EmisKind::Validate(t, k) => format!("V{}.{}", t, k),
+            EmisKind::Recovered(a) => format!("recovered@{}", a.pos),
+        }
+    }
 }
